@@ -2,9 +2,72 @@
 
 package go_clipper2
 
+// vFillC / vOpC: concrete versions (plain Go) of the fill rule and clip type.
+func vFillC(fr FillRule, w int) bool {
+	switch fr {
+	case EvenOdd:
+		return w%2 != 0
+	case NonZero:
+		return w != 0
+	case Positive:
+		return w > 0
+	default:
+		return w < 0
+	}
+}
+
+func vOpC(ct ClipType, s, c bool) bool {
+	switch ct {
+	case Intersection:
+		return s && c
+	case Union:
+		return s || c
+	case Difference:
+		return s && !c
+	default:
+		return s != c
+	}
+}
+
+// vCheckRegionRect asserts C01's region statement for rectilinear inputs by
+// the cell oracle.
+func vCheckRegionRect(id string, ct ClipType, fr FillRule, subj, clip, sol Paths64, bound int64) {
+	g := vGridOf(subj, clip, sol)
+	for i := 0; i+1 < len(g.X); i++ {
+		for j := 0; j+1 < len(g.Y); j++ {
+			ws, ok1 := g.vCellWind(subj, i, j)
+			wc, ok2 := g.vCellWind(clip, i, j)
+			wo, ok3 := g.vCellWind(sol, i, j)
+			if !ok1 || !ok2 {
+				vAssume(false) // inputs of this family are rectilinear by construction
+			}
+			vAssert(id+".rectilinear-output", ok3)
+			want := vOpC(ct, vFillC(fr, ws), vFillC(fr, wc))
+			got := wo != 0
+			if got != want {
+				vCover(id + ".mismatch-cell")
+				// a violation iff the cell holds a probe far from every input edge
+				vAssert(id, !g.vCellFarProbe(i, j, 2, bound+8, subj, clip))
+			}
+		}
+	}
+}
+
 // H_C01_R11: one symbolic subject rectangle, one symbolic clip rectangle,
-// concrete clip type and fill rule; region at a symbolic probe.
+// concrete clip type and fill rule.
 func H_C01_R11(ct, fr int64) {
+	subj := Paths64{vRect("s", vB29)}
+	clip := Paths64{vRect("c", vB29)}
+	sol := BooleanOpPaths64(ClipType(ct), subj, clip, FillRule(fr))
+	vObservePaths("sol", sol)
+	vCheckRegionRect("C01.region", ClipType(ct), FillRule(fr), subj, clip, sol, vB29)
+	vCover("C01.R11.done")
+}
+
+// H_C01_R11_probe: the same family decided with the general winding-number
+// oracle at a fully symbolic probe (slow; kept as a cross-check of the cell
+// oracle).
+func H_C01_R11_probe(ct, fr int64) {
 	subj := Paths64{vRect("s", vB29)}
 	clip := Paths64{vRect("c", vB29)}
 	sol := BooleanOpPaths64(ClipType(ct), subj, clip, FillRule(fr))
@@ -15,6 +78,5 @@ func H_C01_R11(ct, fr int64) {
 	inC := vFill(FillRule(fr), vWind(clip, p))
 	want := vOp(ClipType(ct), inS, inC)
 	got := vWind(sol, p) != 0
-	vCover("C01.R11.done")
 	vAssert("C01.region", vImplies(far, got == want))
 }
